@@ -4604,9 +4604,13 @@ void SymbolDatabase::printXml(std::ostream &out) const
 
     // Variables.. in declaration order, then the function arguments that are not in the variable list. A set ordered by
     // address would make the order of the elements depend on the memory layout of the run.
-    std::vector<const Variable *> variables(mVariableList.cbegin(), mVariableList.cend());
+    std::vector<const Variable *> variables;
     {
-        std::set<const Variable *> seen(mVariableList.cbegin(), mVariableList.cend());
+        std::set<const Variable *> seen;
+        for (const Variable *var : mVariableList) {
+            if (seen.insert(var).second)
+                variables.push_back(var);
+        }
         for (const Variable *arg : argVariables) {
             if (seen.insert(arg).second)
                 variables.push_back(arg);
